@@ -93,6 +93,8 @@ def showRes {α : Type} (f : α → String) : Res α → String
   | .diverges => "TIMEOUT"
   | .ill m => "ILL(" ++ m ++ ")"
 
+def showNum (x : Num) : String := x.1.toString ++ ":" ++ toString x.2
+
 def showBool (b : Bool) : String := if b then "1" else "0"
 
 /-- outcome of checking one protocol line -/
